@@ -20,6 +20,7 @@ type verifWire struct {
 	calls     int
 	log       []string
 	hooksSet  int
+	hooks     PubSubHooks
 	cleaned   int
 	az        string
 	version   int
@@ -83,9 +84,10 @@ func (w *verifWire) Close()       { w.closed++ }
 func (w *verifWire) CleanSubscriptions() { w.cleaned++ }
 func (w *verifWire) SetPubSubHooks(hooks PubSubHooks) <-chan error {
 	w.hooksSet++
+	w.hooks = hooks
 	return nil
 }
-func (w *verifWire) GetPubSubHooks() PubSubHooks      { return PubSubHooks{} }
+func (w *verifWire) GetPubSubHooks() PubSubHooks      { return w.hooks }
 func (w *verifWire) SetOnCloseHook(fn func(error))    {}
 func (w *verifWire) StopTimer() bool {
 	if w.stopTimer != nil {
